@@ -271,7 +271,8 @@ def insert_file(state, inserted_file_path: str) -> bytes:
             "io-error",
             (state["insn"].ctx_start, state["insn"].ctx_end, f"The file at path '{include_path}' is a directory.")
         )
-    except IOError:
+    except (IOError, ValueError):
+        # ValueError: the path itself is unusable (e.g. it contains a null character)
         reports.error(
             "io-error",
             (state["insn"].ctx_start, state["insn"].ctx_end, f"Could not read file at path '{include_path}'.")
@@ -393,16 +394,17 @@ def include(state, included_file_path: str):
             (state["insn"].ctx_start, state["insn"].ctx_end, f"The file at path '{include_path}' is a directory.")
         )
         return b""
-    except IOError:
-        reports.error(
-            "io-error",
-            (state["insn"].ctx_start, state["insn"].ctx_end, f"Could not read file at path '{include_path}'.")
-        )
-        return b""
     except UnicodeDecodeError as ex:
         reports.error(
             "io-error",
             (state["insn"].ctx_start, state["insn"].ctx_end, f"Source file '{include_path}' is not in UTF-8:\n{ex}")
+        )
+        return b""
+    except (IOError, ValueError):
+        # ValueError: the path itself is unusable (e.g. it contains a null character)
+        reports.error(
+            "io-error",
+            (state["insn"].ctx_start, state["insn"].ctx_end, f"Could not read file at path '{include_path}'.")
         )
         return b""
 
